@@ -1700,6 +1700,11 @@ def register(R):
         return model
     R.builtin_models['os.remove'] = os_call('os.remove')
     R.builtin_models['os.rename'] = os_call('os.rename')
+    # other file-system operations a changed function might reach for: each leaves an event (so "exactly one atomic rename",
+    # "only the temp file is removed" ... see them) and may fail with OSError
+    for nm in ('os.replace', 'os.unlink', 'os.truncate', 'os.link', 'os.symlink', 'shutil.move', 'shutil.copy', 'shutil.copy2',
+               'shutil.copyfile', 'shutil.rmtree'):
+        R.builtin_models[nm] = os_call(nm)
 
     def os_events(tr, name):
         return [e for e in tr if e.kind == 'ext' and e.name == name]
